@@ -4,6 +4,7 @@ import (
 	"bytes"
 	"fmt"
 	"go/ast"
+	"go/constant"
 	"go/printer"
 	"go/token"
 	"go/types"
@@ -74,6 +75,7 @@ func NormaliseOverlay(p *Program, keep func(*types.Func) bool) (map[string][]byt
 				if !ok || fd.Body == nil {
 					continue
 				}
+				in.stripFailClosedRecover(pk, f, fd)
 				in.rewriteBlock(pk, f, fd, fd.Body)
 			}
 		}
@@ -1028,4 +1030,219 @@ func cloneExpr(e ast.Expr) ast.Expr {
 		return e
 	}
 	return x
+}
+
+// stripFailClosedRecover removes, from the normal form, a leading
+//
+//	defer func() { if x := recover(); x != nil { <results> = <zero…>, <fresh error> } }()
+//
+// of a function with named results whose last result is an error. Such a
+// wrapper maps the outcome "panic" to the outcome "(zero value, non-nil
+// error)" and changes nothing else; every property of this code base treats
+// the two abort outcomes alike, provided the callers look at the error. The
+// wrapper is therefore dropped only when every in-module caller binds the
+// error result to a named variable (or returns the call directly).
+func (in *inliner) stripFailClosedRecover(pk *packages.Package, file *ast.File, fd *ast.FuncDecl) bool {
+	if fd.Body == nil || len(fd.Body.List) == 0 || fd.Type.Results == nil {
+		return false
+	}
+	info := pk.TypesInfo
+	var results []types.Object
+	for _, fld := range fd.Type.Results.List {
+		if len(fld.Names) == 0 {
+			return false
+		}
+		for _, n := range fld.Names {
+			o := info.Defs[n]
+			if o == nil {
+				return false
+			}
+			results = append(results, o)
+		}
+	}
+	if len(results) < 2 {
+		return false
+	}
+	errObj := results[len(results)-1]
+	if !types.Identical(errObj.Type(), types.Universe.Lookup("error").Type()) {
+		return false
+	}
+	ds, ok := fd.Body.List[0].(*ast.DeferStmt)
+	if !ok || len(ds.Call.Args) != 0 {
+		return false
+	}
+	lit, ok := ds.Call.Fun.(*ast.FuncLit)
+	if !ok || lit.Type.Params != nil && len(lit.Type.Params.List) != 0 {
+		return false
+	}
+	isRecover := func(e ast.Expr) bool {
+		c, ok := e.(*ast.CallExpr)
+		if !ok || len(c.Args) != 0 {
+			return false
+		}
+		id, ok := c.Fun.(*ast.Ident)
+		if !ok {
+			return false
+		}
+		b, isB := info.Uses[id].(*types.Builtin)
+		return isB && b.Name() == "recover"
+	}
+	recDefine := func(s ast.Stmt) types.Object {
+		as, ok := s.(*ast.AssignStmt)
+		if !ok || as.Tok != token.DEFINE || len(as.Lhs) != 1 || len(as.Rhs) != 1 || !isRecover(as.Rhs[0]) {
+			return nil
+		}
+		id, ok := as.Lhs[0].(*ast.Ident)
+		if !ok {
+			return nil
+		}
+		return info.Defs[id]
+	}
+	var ifs *ast.IfStmt
+	var recVar types.Object
+	switch len(lit.Body.List) {
+	case 1:
+		ifs, _ = lit.Body.List[0].(*ast.IfStmt)
+		if ifs == nil || ifs.Init == nil {
+			return false
+		}
+		recVar = recDefine(ifs.Init)
+	case 2:
+		recVar = recDefine(lit.Body.List[0])
+		ifs, _ = lit.Body.List[1].(*ast.IfStmt)
+		if ifs == nil || ifs.Init != nil {
+			return false
+		}
+	default:
+		return false
+	}
+	if recVar == nil || ifs.Else != nil {
+		return false
+	}
+	cond, ok := ifs.Cond.(*ast.BinaryExpr)
+	if !ok || cond.Op != token.NEQ {
+		return false
+	}
+	isRec := func(e ast.Expr) bool { id, ok := e.(*ast.Ident); return ok && info.Uses[id] == recVar }
+	isNil := func(e ast.Expr) bool {
+		id, ok := e.(*ast.Ident)
+		if !ok {
+			return false
+		}
+		_, n := info.Uses[id].(*types.Nil)
+		return n
+	}
+	if !(isRec(cond.X) && isNil(cond.Y) || isRec(cond.Y) && isNil(cond.X)) {
+		return false
+	}
+	freshErr := func(e ast.Expr) bool {
+		c, ok := e.(*ast.CallExpr)
+		if !ok {
+			return false
+		}
+		fn := calleeOf(info, c)
+		if fn == nil || fn.Pkg() == nil {
+			return false
+		}
+		switch fn.Pkg().Path() + "." + fn.Name() {
+		case "fmt.Errorf", "errors.New":
+			return true
+		}
+		return false
+	}
+	zero := func(e ast.Expr) bool {
+		if isNil(e) {
+			return true
+		}
+		if tv, ok := info.Types[e]; ok && tv.Value != nil {
+			switch tv.Value.Kind() {
+			case constant.Bool:
+				return !constant.BoolVal(tv.Value)
+			case constant.String:
+				return constant.StringVal(tv.Value) == ""
+			case constant.Int, constant.Float:
+				return constant.Sign(tv.Value) == 0
+			}
+			return false
+		}
+		cl, ok := e.(*ast.CompositeLit)
+		return ok && len(cl.Elts) == 0
+	}
+	assigned := map[types.Object]bool{}
+	for _, st := range ifs.Body.List {
+		as, ok := st.(*ast.AssignStmt)
+		if !ok || as.Tok != token.ASSIGN || len(as.Lhs) != len(as.Rhs) {
+			return false
+		}
+		for i, l := range as.Lhs {
+			id, ok := l.(*ast.Ident)
+			if !ok {
+				return false
+			}
+			o := info.Uses[id]
+			isRes := false
+			for _, ro := range results {
+				if ro == o {
+					isRes = true
+				}
+			}
+			if !isRes {
+				return false
+			}
+			if o == errObj {
+				if !freshErr(as.Rhs[i]) {
+					return false
+				}
+			} else if !zero(as.Rhs[i]) {
+				return false
+			}
+			assigned[o] = true
+		}
+	}
+	for _, ro := range results {
+		if !assigned[ro] {
+			return false
+		}
+	}
+	// callers: the error result is bound to a named variable or returned directly
+	fnObj, _ := info.Defs[fd.Name].(*types.Func)
+	if fnObj == nil {
+		return false
+	}
+	okCalls, uses := 0, 0
+	for _, q := range in.p.Pkgs {
+		for _, o := range q.TypesInfo.Uses {
+			if o == types.Object(fnObj) {
+				uses++
+			}
+		}
+		for _, f := range q.Syntax {
+			ast.Inspect(f, func(n ast.Node) bool {
+				switch x := n.(type) {
+				case *ast.AssignStmt:
+					if len(x.Rhs) == 1 && len(x.Lhs) == len(results) {
+						if c, ok := x.Rhs[0].(*ast.CallExpr); ok && calleeOf(q.TypesInfo, c) == fnObj {
+							if id, ok := x.Lhs[len(x.Lhs)-1].(*ast.Ident); ok && id.Name != "_" {
+								okCalls++
+							}
+						}
+					}
+				case *ast.ReturnStmt:
+					if len(x.Results) == 1 {
+						if c, ok := x.Results[0].(*ast.CallExpr); ok && calleeOf(q.TypesInfo, c) == fnObj {
+							okCalls++
+						}
+					}
+				}
+				return true
+			})
+		}
+	}
+	if okCalls != uses {
+		return false
+	}
+	fd.Body.List = fd.Body.List[1:]
+	in.changed[file] = true
+	in.inlined["fail-closed-recover-wrapper("+fd.Name.Name+")"]++
+	return true
 }
